@@ -122,8 +122,26 @@ def names_stored(node) -> Set[str]:
 # expression-level rewrites (also applied to patterns)
 
 class _ExprNorm(ast.NodeTransformer):
+    def visit_BoolOp(self, node):
+        self.generic_visit(node)
+        # m.get(a) or m.get(b) [or ...]  ->  next((_m for _m in [m.get(a), m.get(b)] if _m), None): "the first present of ..." has one spelling
+        # (mapping values are objects or None here, so a falsy last operand is None either way)
+        def is_get(e):
+            return isinstance(e, ast.Call) and isinstance(e.func, ast.Attribute) and e.func.attr == "get" and 1 <= len(e.args) <= 2 and not e.keywords
+        if isinstance(node.op, ast.Or) and len(node.values) >= 2 and all(is_get(v) for v in node.values) \
+                and len({ast.unparse(v.func.value) for v in node.values}) == 1:
+            gen = ast.GeneratorExp(elt=ast.Name(id="_m", ctx=ast.Load()),
+                                   generators=[ast.comprehension(target=ast.Name(id="_m", ctx=ast.Store()), iter=ast.List(elts=list(node.values), ctx=ast.Load()),
+                                                                 ifs=[ast.Name(id="_m", ctx=ast.Load())], is_async=0)])
+            return ast.copy_location(ast.Call(func=ast.Name(id="next", ctx=ast.Load()), args=[gen, ast.Constant(value=None)], keywords=[]), node)
+        return node
+
     def visit_Call(self, node):
         self.generic_visit(node)
+        # m.get(k) -> m.get(k, None)
+        if isinstance(node.func, ast.Attribute) and node.func.attr == "get" and len(node.args) == 1 and not node.keywords \
+                and not isinstance(node.args[0], ast.Starred):
+            node = ast.copy_location(ast.Call(func=node.func, args=[node.args[0], ast.Constant(value=None)], keywords=[]), node)
         # operator.attrgetter('a') -> lambda _k: _k.a
         if ast.unparse(node.func) in ("operator.attrgetter", "attrgetter") and len(node.args) == 1 and not node.keywords \
                 and isinstance(node.args[0], ast.Constant) and isinstance(node.args[0].value, str) and node.args[0].value.isidentifier():
@@ -154,6 +172,11 @@ class _ExprNorm(ast.NodeTransformer):
                 nm = lam.args.args[0].arg
                 return ast.copy_location(ast.GeneratorExp(elt=ast.Name(id=nm, ctx=ast.Load()),
                                                           generators=[ast.comprehension(target=ast.Name(id=nm, ctx=ast.Store()), iter=node.args[1], ifs=[lam.body], is_async=0)]), node)
+            if isinstance(node.args[0], ast.Name):      # filter(pred, S) with a named predicate -> (v for v in S if pred(v))
+                return ast.copy_location(ast.GeneratorExp(
+                    elt=ast.Name(id="_m", ctx=ast.Load()),
+                    generators=[ast.comprehension(target=ast.Name(id="_m", ctx=ast.Store()), iter=node.args[1],
+                                                  ifs=[ast.Call(func=node.args[0], args=[ast.Name(id="_m", ctx=ast.Load())], keywords=[])], is_async=0)]), node)
         # f([x for ...]) -> f(x for ...) for consumers that only iterate
         fname_ = node.func.attr if isinstance(node.func, ast.Attribute) else (node.func.id if isinstance(node.func, ast.Name) else "")
         if fname_ in ("join", "any", "all", "sum", "min", "max", "sorted", "set", "frozenset", "tuple", "list", "dict", "OrderedDict", "next", "chain") \
@@ -479,10 +502,43 @@ def _ifexp(test, a, b):
     return _ExprNorm().visit(ast.IfExp(test=test, body=a, orelse=b))
 
 
+def _per_line_rstrip(stmts: list) -> list:
+    """N15:  *L, R = X.split('\n') ; L = [l.rstrip(' ') for l in L] ; X = '\n'.join([*L, R])   ->   X = re.sub('[ ]+\n', '\n', X)
+    (blanks directly before a line break are removed, the text after the last line break is left alone - the two spellings of one pass)"""
+    out, i = [], 0
+    while i < len(stmts):
+        a, b, c = (stmts[i:i + 3] + [None, None, None])[:3]
+        hit = None
+        if isinstance(a, ast.Assign) and len(a.targets) == 1 and isinstance(a.targets[0], (ast.Tuple, ast.List)) and len(a.targets[0].elts) == 2 \
+                and isinstance(a.targets[0].elts[0], ast.Starred) and isinstance(a.targets[0].elts[0].value, ast.Name) and isinstance(a.targets[0].elts[1], ast.Name) \
+                and isinstance(a.value, ast.Call) and isinstance(a.value.func, ast.Attribute) and a.value.func.attr == "split" and isinstance(a.value.func.value, ast.Name) \
+                and len(a.value.args) == 1 and isinstance(a.value.args[0], ast.Constant) and a.value.args[0].value == "\n" \
+                and isinstance(b, ast.Assign) and isinstance(c, ast.Assign):
+            L, R, X = a.targets[0].elts[0].value.id, a.targets[0].elts[1].id, a.value.func.value.id
+            okb = (len(b.targets) == 1 and isinstance(b.targets[0], ast.Name) and b.targets[0].id == L and isinstance(b.value, ast.ListComp)
+                   and len(b.value.generators) == 1 and not b.value.generators[0].ifs and isinstance(b.value.generators[0].iter, ast.Name)
+                   and b.value.generators[0].iter.id == L and isinstance(b.value.generators[0].target, ast.Name)
+                   and ast.unparse(b.value.elt) == f"{b.value.generators[0].target.id}.rstrip(' ')")
+            okc = (len(c.targets) == 1 and isinstance(c.targets[0], ast.Name) and c.targets[0].id == X
+                   and ast.unparse(c.value).replace(" ", "") in (f"'\\n'.join([*{L},{R}])", f"'\\n'.join({L}+[{R}])", f"'\\n'.join((*{L},{R}))"))
+            if okb and okc:
+                hit = ast.copy_location(ast.Assign(targets=[ast.Name(id=X, ctx=ast.Store())], value=ast.Call(
+                    func=ast.Attribute(value=ast.Name(id="re", ctx=ast.Load()), attr="sub", ctx=ast.Load()),
+                    args=[ast.Constant(value="[ ]+\n"), ast.Constant(value="\n"), ast.Name(id=X, ctx=ast.Load())], keywords=[])), a)
+        if hit is not None:
+            out.append(hit)
+            i += 3
+        else:
+            out.append(stmts[i])
+            i += 1
+    return out
+
+
 def norm_block(stmts: list) -> list:
     """N5 / N6 on one statement list (recursively on nested blocks); returns a new list"""
     out = []
     stmts = [s for s in stmts if not _is_docstring(s)]
+    stmts = _per_line_rstrip(stmts)
     # a, b = (x, y)  ->  a = x ; b = y      (names on the left must not occur on the right)
     split = []
     for s in stmts:
@@ -1183,8 +1239,37 @@ class Normalizer:
         for _ in range(3):
             before = ast.dump(fn)
             fn = _ExprNorm().visit(fn)
-            local_defs = {s.name: s for s in fn.body if isinstance(s, ast.FunctionDef)}
+            # nested defs anywhere in the function's own blocks (not inside other nested defs) can be inlined at their call sites
+            local_defs = {}
+
+            def _collect_defs(block):
+                for st_ in block:
+                    if isinstance(st_, ast.FunctionDef):
+                        local_defs.setdefault(st_.name, st_)
+                    elif not isinstance(st_, (ast.AsyncFunctionDef, ast.ClassDef)):
+                        for f_ in ("body", "orelse", "finalbody"):
+                            b_ = getattr(st_, f_, None)
+                            if isinstance(b_, list) and b_ and isinstance(b_[0], ast.stmt):
+                                _collect_defs(b_)
+            _collect_defs(fn.body)
             fn = self._inline(fn, fi, keep, depth, local_defs, params)
+            # a nested def that is no longer referenced (every call was inlined) is dropped from inner blocks, so that the block it sat in
+            # is again a plain sequence of assignments
+            loaded_ = {n_.id for n_ in ast.walk(fn) if isinstance(n_, ast.Name) and isinstance(n_.ctx, ast.Load)}
+
+            def _drop_dead_defs(block, top):
+                out_ = []
+                for st_ in block:
+                    if isinstance(st_, ast.FunctionDef) and not top and st_.name not in loaded_ and st_.name not in keep:
+                        continue
+                    if not isinstance(st_, (ast.FunctionDef, ast.AsyncFunctionDef, ast.ClassDef)):
+                        for f_ in ("body", "orelse", "finalbody"):
+                            b_ = getattr(st_, f_, None)
+                            if isinstance(b_, list) and b_ and isinstance(b_[0], ast.stmt):
+                                setattr(st_, f_, _drop_dead_defs(b_, False) or [ast.Pass()])
+                    out_.append(st_)
+                return out_
+            fn.body = _drop_dead_defs(fn.body, True)
             fn.body = norm_block(fn.body)
             fn.body = ssa_straightline(fn.body, params)
             fn.body = forward_subst(fn.body, set(keep), params)
